@@ -249,7 +249,7 @@ def fval(node, env):
     raise Untranslatable("double expr " + str(k))
 
 
-def ladder(name, is_double):
+def ladder(name):
     fn = cxxast.function_decl(LS_CC, "muduo::" + name)
     env = {}
     rungs = []
@@ -297,14 +297,19 @@ def ladder(name, is_double):
             raise Untranslatable("rung test is not <")
         a, b = kids(cond)
         lhs = strip(a)
-        want = "n" if is_double else "s"
-        if not (lhs.get("kind") == "DeclRefExpr" and lhs["referencedDecl"]["name"] == want):
-            raise Untranslatable("rung compares %s, expected %s" % (lhs.get("kind"), want))
-        if is_double:
-            bound = fval(b, env).as_integer_ratio()
+        if not (lhs.get("kind") == "DeclRefExpr" and lhs["referencedDecl"]["name"] in ("s", "n")):
+            raise Untranslatable("rung compares %s, expected s or n" % lhs.get("kind"))
+        # the comparison is made on the double when the (converted) left operand has type double:
+        # `n < X`, or `s < 9995.0` (s converted: the same value as n = static_cast<double>(s))
+        lty = (a.get("type") or {}).get("qualType", "")
+        if lty == "double":
+            bound = ("dbl",) + fval(b, env).as_integer_ratio()
+        elif lty in ("int64_t", "long", "long long") and lhs["referencedDecl"]["name"] == "s":
+            bound = ("int", cxxast.const_eval(b), 1)
         else:
-            bound = (cxxast.const_eval(b), 1)
-        rungs.append((bound, call_info(ks[1]), cxxast.src_text(cond)))
+            raise Untranslatable("rung compares in type %r" % lty)
+        echo = cxxast.src_text(cond) or "%s < %s" % (lhs["referencedDecl"]["name"], bound[1] if bound[2] == 1 else "%d/%d" % bound[1:])
+        rungs.append((bound, call_info(ks[1]), echo))
         if len(ks) < 3:
             raise Untranslatable("ladder without final else")
         if ks[2].get("kind") == "IfStmt":
@@ -317,7 +322,7 @@ def ladder(name, is_double):
 
 def coq_rung(r):
     bound, info, src = r
-    b = "None" if bound is None else "Some (%d, %d)" % bound
+    b = "Else" if bound is None else "%s (%d) (%d)" % ("OnInt" if bound[0] == "int" else "OnDouble", bound[1], bound[2])
     if info[0] == "int":
         return "(%s, RInt)  (* %s *)" % (b, src)
     return "(%s, RFix %d (%d) %s)  (* %s *)" % (b, info[1], info[2], bl(info[3]), src)
@@ -397,10 +402,12 @@ def main():
     for m in MACROS:
         out += ["(* Logging.h #define %s %s *)" % (m, g[m][1].replace("(*", "( *").replace("*)", "* )")),
                 "Definition gate_%s (cfg : Z) : bool := %s." % (m, g[m][0])]
-    out += ["", "(* one rung: (Some (num, den) = the test `x < num/den` | None = final else, what is printed) *)",
+    out += ["", "(* one rung: (the test, what is printed).  OnInt: `s < num/den` on the integer; OnDouble: `double(s) < num/den`",
+            "   (num/den = exact value of the folded double constant); Else = final else *)",
+            "Inductive rung_test := OnInt (num den : Z) | OnDouble (num den : Z) | Else.",
             "Inductive rung_fmt := RInt | RFix (prec : Z) (divisor : Z) (unit : list byte)."]
-    si = attempt("formatSI ladder", lambda: ladder("formatSI", False))
-    iec = attempt("formatIEC ladder", lambda: ladder("formatIEC", True))
+    si = attempt("formatSI ladder", lambda: ladder("formatSI"))
+    iec = attempt("formatIEC ladder", lambda: ladder("formatIEC"))
     if si is None or iec is None:
         # committed defaults = the pinned tree's ladders
         import ast
@@ -409,11 +416,11 @@ def main():
         iec = iec or d["iec"]
     if os.environ.get("GEN_C17_WRITE_DEFAULT"):
         open(os.path.join(cxxast.ROOT, "lib/consts/C17_ladders.default"), "w").write(repr({"si": si, "iec": iec}) + "\n")
-    out += ["(* formatSI: the tests compare the integer s *)",
-            "Definition si_ladder : list (option (Z * Z) * rung_fmt) := ["] + \
+    out += ["(* formatSI *)",
+            "Definition si_ladder : list (rung_test * rung_fmt) := ["] + \
            ["  " + coq_rung(r) + (";" if i + 1 < len(si) else "") for i, r in enumerate([(a, tuple(b), c.replace(";", ",")) for a, b, c in si])] + ["]."]
-    out += ["(* formatIEC: the tests compare n = double(s) with a double constant (exact value num/den) *)",
-            "Definition iec_ladder : list (option (Z * Z) * rung_fmt) := ["] + \
+    out += ["(* formatIEC *)",
+            "Definition iec_ladder : list (rung_test * rung_fmt) := ["] + \
            ["  " + coq_rung(r) + (";" if i + 1 < len(iec) else "") for i, r in enumerate([(a, tuple(b), c.replace(";", ",")) for a, b, c in iec])] + ["]."]
     txt = "\n".join(out) + "\n"
     old = open(path).read() if os.path.exists(path) else None
